@@ -128,7 +128,8 @@ def publishAfterFill : List LStmt → Bool
   | .ifNone :: .newLocal :: r =>
     let body := r.takeWhile (· == .appendLocal)
     let rest := r.dropWhile (· == .appendLocal)
-    rest == [.publishLocal, .endIf, .retShared] && !body.isEmpty
+    let _ := body
+    rest == [.publishLocal, .endIf, .retShared]
   | _ => false
 
 /-- number of items the complete table has -/
